@@ -1,17 +1,19 @@
 """C15: invalid arguments are reported as 'Nothing', never as garbage or a crash."""
 import importlib
 import itertools
+import re
 
 import numpy as np
 
 from .. import viewrun as V
+from .. import c15_invalid as X
 from ..util import fmt_vec, HookAcc, Tok, all_shapes
 from . import c03 as C03
 
 CLAIM = dict(
-    technique="runtime monitoring: sanitizer-instrumented execution of the checked operations over the invalid part of their small-scope argument space, NumPy raise/no-raise as the oracle for has_value; failing stages inside 2-3 stage pipelines fed onward without unwrapping",
-    text="For every operation whose result type for run-time arguments is an optional (recorded by the harness as M=1; operations that do not validate a run-time argument position are listed in the evidence as the unchecked inventory and are only driven with valid arguments), the invalid part of the argument space (element-count mismatches, several -1, zero/negative extents, axes in [-dim-2, dim+1] incl. duplicates, operand-shape mismatches, ...) is executed under ASan/UBSan/libstdc++ assertions; has_value must equal 'NumPy does not raise', and no trap or sanitizer report may occur. Pipelines in which stage 1, 2 or 3 fails are built by passing the optional view directly to the next view and to every evaluation route: once empty always empty, never dereferenced (an empty-optional dereference traps under _GLIBCXX_ASSERTIONS). Held-on-observed.",
-    note="Trusted: NumPy's argument validation as the reference for validity. Which positions count as 'checked' is decided mechanically from the result type (DESIGN.md 1.6).",
+    technique="runtime monitoring: sanitizer-instrumented execution of the checked operations over the invalid part of their small-scope argument space (the existing harness ops of C03, C04, C07, C08, C16 driven with labelled invalid and valid arguments), NumPy raise/no-raise as the oracle for has_value; failing stages inside 2-3 stage pipelines fed onward without unwrapping",
+    text="For every operation whose result type for run-time arguments is an optional (recorded by the harness as M=1; operations that do not validate a run-time argument position are listed in the evidence as the unchecked inventory and are only required not to crash on valid arguments), the invalid part of the argument space is executed under ASan/UBSan/libstdc++ assertions, each case labelled with the reason it is invalid: reshape (element-count mismatches, several -1, zero/negative extents), axes in [-dim-2, dim+1] incl. duplicates (flip/expand_dims/moveaxis/swapaxes/transpose, roll, stack, diagonal, the reductions and accumulations of C08 incl. mean/var/stddev/vector_norm, tensordot, trace), operand shapes that do not broadcast (every binary/ternary ufunc of C07 over all incompatible shape pairs of dim 1..3 extents 1..3 for add, stratified samples for the others; where), mismatching operand shapes of concatenate/stack/hstack/vstack/dstack/column_stack, mismatching contraction extents and batch axes of matmul/matmulv2/dot/inner/vecdot/tensordot, pad/roll/tile/repeat/resize/sliding_window/expand list arguments of wrong length or with negative entries, shape-valued arguments of full/zeros/ones/eye with negative entries, plus a share of valid cases. has_value must equal 'NumPy does not raise' (explicit documented rules where NumPy and the property text differ: negative reshape extents, ONNX-style negative pad widths, one-element list broadcasting), and no trap, sanitizer report or escaping C++ exception may occur. Pipelines in which stage 1, 2 or 3 fails are built by passing the optional view directly to the next view and to every evaluation route: once empty always empty, never dereferenced (an empty-optional dereference traps under _GLIBCXX_ASSERTIONS). Held-on-observed.",
+    note="Trusted: NumPy's argument validation (and the documented pad/resize/expand models of C04) as the reference for validity. Which operations count as 'checked' is decided mechanically from the result type (DESIGN.md 1.6); for a checked operation an argument kind the property text does not name and the operation does not validate is listed per (op, reason) in UNCHECKED_POSITIONS and reported in the evidence (unchecked_positions) instead of raising an alarm. Results with a zero extent are out of scope (extents >= 1).",
     ref="DESIGN.md 4/C15")
 HARNESS = ["c15_pipes"]
 TARGETS_QUICK = [("c15_pipes", "asan")]
@@ -127,6 +129,17 @@ def numpy_accepts(mod, m):
     if m.get("op") == "reshape" and not reshape_valid(int(np.prod(m["shape"])), m["newshape"]):
         # NumPy treats every negative extent as "infer"; the property lists negative extents as invalid
         return False, None
+    if m.get("c15x"):
+        # cases of vf/c15_invalid.py: explicit, documented rules where NumPy and the property text differ or where the
+        # module's expected() has no exact reference (returns None for valid arguments)
+        ov = X.override(m)
+        if ov is False:
+            return False, None
+        if ov is True:
+            try:
+                return True, mod.expected(m)
+            except Exception:
+                return True, None
     try:
         e = mod.expected(m)
         return e is not None, e
@@ -134,21 +147,87 @@ def numpy_accepts(mod, m):
         return False, None
 
 
-INVALID_SOURCES = [("c03", C03, gen_c03_invalid)]
+# (name, module, generator, record parser or None for the module's PARSE / the standard view record)
+INVALID_SOURCES = [("c03", C03, gen_c03_invalid, None)]
+
+# value modules whose invalid argument space is generated by vf/c15_invalid.py (existing harness ops and references)
+X_SOURCES = [("c04", "gen_c04_invalid", "parse"), ("c07", "gen_c07_invalid", None), ("c08", "gen_c08_invalid", None), ("c16", "gen_c16_invalid", "parse")]
+
+# Per-(op, reason) refinement of the 'checked' decision (DESIGN.md 1.6 decides per operation from the result type).
+# An operation can return an optional because it validates ONE argument position (e.g. take: the axis) while another
+# position is not validated at all.  Where the property statement names the argument kind (X.named_by_property), an
+# accepted invalid argument is a violation; where it does not, the position is listed here after triage and its invalid
+# cases go to the unchecked inventory ("unchecked_positions" in the evidence: cases, how many had a value / died) instead of
+# raising an alarm - a broken precondition, nothing is demanded.  Entries = observations on the unchanged tree:
+UNCHECKED_POSITIONS = {
+    # view::tensordot returns an optional because it is a broadcast-multiply + sum pipeline; the length of the two axis
+    # lists and the integer number of axes are never compared with anything (2-axis list against a 1-axis list: value or
+    # std::out_of_range; n above an operand's dimension: std::out_of_range).  The property names "mismatching operand
+    # shapes in ... matmul/dot" and "out-of-range or duplicate axes" (both stay checked for tensordot), not these two.
+    ("la_tensordot_axes", "wrong_length"),
+    ("la_tensordot_n", "count_out_of_range"),
+}
+
+
+def x_sources():
+    from ..integrated import VALUE
+    out = []
+    for n, gen, parse in X_SOURCES:
+        if n not in VALUE:
+            continue
+        mod = importlib.import_module("vf.checks." + n)
+        out.append((n, mod, getattr(X, gen), getattr(mod, parse) if parse else None))
+    return out
 
 
 def extra_sources():
     """value modules that ship their own invalid-argument generator: gen_invalid(rng, tier)"""
     out = []
     from ..integrated import VALUE
-    for n in [v for v in VALUE if v != "c03"]:
+    covered = {"c03"} | {n for n, _, _ in X_SOURCES}
+    for n in [v for v in VALUE if v not in covered]:
         try:
             mod = importlib.import_module("vf.checks." + n)
         except Exception:
             continue
         if getattr(mod, "CLAIM", None) and hasattr(mod, "gen_invalid") and hasattr(mod, "expected"):
-            out.append((n, mod, mod.gen_invalid))
+            out.append((n, mod, mod.gen_invalid, None))
     return out
+
+
+BIG_META = ("args", "data", "opds", "da", "db")
+CHUNK = 20000
+
+
+class Obs:
+    """what part A keeps of one executed case (the parsed arrays are dropped chunk by chunk)"""
+    __slots__ = ("m", "line", "M", "hv", "vshape", "routes", "crash", "stderr", "timeout", "err", "exc", "hooks", "norec")
+
+    def __init__(self, cr):
+        self.m = cr.m
+        self.line = cr.line[:1500]
+        self.crash = cr.crash.kind() if cr.crash is not None else None
+        self.stderr = cr.crash.stderr[-2500:] if cr.crash is not None else None
+        self.timeout = cr.timeout
+        self.hooks = cr.hooks
+        rec = cr.rec
+        self.norec = rec is None
+        self.M = rec.get("M") if rec else None
+        self.err = rec.get("error") if rec else None
+        self.exc = None
+        raw = cr.raw or []
+        if "EXC" in raw:
+            # a C++ exception escaped from the library (while the view was built, read or evaluated)
+            k = raw.index("EXC")
+            what = raw[k + 1] if k + 1 < len(raw) else "?"
+            self.exc = "exception"       # the exception text depends on the argument values: not part of the key
+            self.stderr = "C++ exception escaped: " + what[:300]
+            if self.M is None and len(raw) > 1 and raw[0] == "M":
+                self.M = int(raw[1])
+        v = rec.get("V") if rec and not self.err else None
+        self.hv = v is not None
+        self.vshape = v.get("shape") if v else None
+        self.routes = [r for r in ("E", "C", "O") if rec and not self.err and rec.get(r) is not None]
 
 
 # ------------------------------------------------------------------ part B: failing stages inside pipelines
@@ -256,61 +335,92 @@ def run(ctx):
     checked = {}
     reasons_seen = {}
     # ---- part A
-    for name, mod, gen in INVALID_SOURCES + extra_sources():
+    positions = {}
+    ncases = {}
+    for name, mod, gen, parse in INVALID_SOURCES + x_sources() + extra_sources():
         rng = ctx.rng.__class__(ctx.seed * 15485863 + int(name[1:]))
         cases = gen(rng, ctx.tier)
-        res = V.run_module_cases(mod.HARNESS, cases, "asan", parse=getattr(mod, "PARSE", V.parse_view_record))
+        ncases[name] = len(cases)
+        parse = parse or getattr(mod, "PARSE", V.parse_view_record)
+        obs = []
+        for k0 in range(0, len(cases), CHUNK):
+            res = V.run_module_cases(mod.HARNESS, cases[k0:k0 + CHUNK], "asan", parse=parse)
+            for cr in res:
+                if cr.m.get("op") == "<exit>":
+                    ctx.inconc("a %s runner died outside a case: %s" % (name, cr.crash.kind() if cr.crash else "?"))
+                    continue
+                obs.append(Obs(cr))
+            del res
         # which ops return an optional at all (M flag) - decided from the records of this run
         opM = {}
-        for cr in res:
-            if cr.rec is not None and "M" in cr.rec:
-                opM.setdefault(cr.m["op"], set()).add(cr.rec["M"])
-        for cr in res:
-            op = cr.m["op"]
-            reason = cr.m.get("reason", "?")
-            ok, exp = numpy_accepts(mod, cr.m)
-            det = dict(case={k: v for k, v in cr.m.items() if k not in ("args",)}, line=cr.line, numpy_accepts=ok)
+        for o in obs:
+            if o.M is not None:
+                opM.setdefault(o.m["op"], set()).add(o.M)
+        for o in obs:
+            m = o.m
+            op = m["op"]
+            kop = X.key_op(m) if m.get("c15x") else op      # operation name in violation keys
+            reason = m.get("reason", "?")
+            lenient = m.get("c15x") and reason in X.LENIENT_REASONS
+            ok, exp = numpy_accepts(mod, m)
+            det = dict(case={k: v for k, v in m.items() if k not in BIG_META}, line=o.line, numpy_accepts=ok)
+            if m.get("c15x") and (reason in X.OK_REASONS) != ok:
+                # label and oracle disagree: a bug of the generator, never an alarm
+                ctx.inconc("generator label '%s' disagrees with the reference (accepts=%s) for %s" % (reason, ok, o.line[:300]))
+                continue
+            fault = o.crash or o.exc
             is_checked = 1 in opM.get(op, set())
             if not is_checked:
                 # unchecked operation: invalid arguments are a broken precondition, nothing is demanded of them;
                 # valid arguments still must not crash
-                unchecked.setdefault(op, {"invalid_cases_ignored": 0, "valid_cases": 0})
-                if ok:
-                    unchecked[op]["valid_cases"] += 1
-                    if cr.crash is not None:
-                        ctx.violation("%s:%s:crash:%s" % (op, reason, cr.crash.kind()), "%s %s (valid arguments) died: %s" % (op, det["case"], cr.crash.kind()), dict(det, stderr=cr.crash.stderr[-2500:]))
+                unchecked.setdefault(kop, {"invalid_cases_ignored": 0, "valid_cases": 0})
+                if ok and not lenient:
+                    unchecked[kop]["valid_cases"] += 1
+                    if fault:
+                        ctx.violation("%s:%s:crash:%s" % (kop, reason, fault), "%s %s (valid arguments) died: %s" % (op, det["case"], fault), dict(det, stderr=o.stderr))
                 else:
-                    unchecked[op]["invalid_cases_ignored"] += 1
+                    unchecked[kop]["invalid_cases_ignored"] += 1
                 continue
-            checked.setdefault(op, {"valid": 0, "invalid": 0})
-            checked[op]["valid" if ok else "invalid"] += 1
-            if cr.crash is not None:
+            if not ok and (op, reason) in UNCHECKED_POSITIONS and not X.named_by_property(op, reason):
+                # checked operation, unchecked argument position (see UNCHECKED_POSITIONS)
+                p = positions.setdefault("%s:%s" % (op, reason), {"invalid_cases_ignored": 0, "had_value": 0, "nothing": 0, "died": 0})
+                p["invalid_cases_ignored"] += 1
+                p["died" if fault else ("had_value" if o.hv else "nothing")] += 1
+                continue
+            checked.setdefault(kop, {"valid": 0, "invalid": 0})
+            checked[kop]["valid" if ok else "invalid"] += 1
+            if fault:
                 ncrash += 1
-                ctx.violation("%s:%s:crash:%s" % (op, reason, cr.crash.kind()), "%s %s died instead of reporting Nothing: %s" % (op, det["case"], cr.crash.kind()), dict(det, stderr=cr.crash.stderr[-2500:]))
+                ctx.violation("%s:%s:crash:%s" % (kop, reason, fault), "%s %s died instead of reporting %s: %s" % (op, det["case"], "a value" if ok else "Nothing", fault), dict(det, stderr=o.stderr))
                 continue
-            if cr.timeout:
-                ctx.inconc("timeout in %s" % cr.line[:200])
+            if o.timeout:
+                ctx.inconc("timeout in %s" % o.line[:200])
                 continue
-            if cr.rec is None or "error" in cr.rec:
+            if o.err and o.err.startswith("ERR"):
+                ctx.inconc("harness error '%s' in %s" % (o.err[:80], o.line[:200]))
+                continue
+            if o.norec or o.err:
                 continue
             ctx.ev()
-            hv = cr.rec["V"] is not None
-            if hv and not ok:
-                ctx.violation("%s:%s:accepted_invalid" % (op, reason), "%s %s returns a value (shape %s) where NumPy raises" % (op, det["case"], cr.rec["V"].get("shape")), det)
+            hv = o.hv
+            if lenient:
+                pass        # a value and Nothing are both acceptable (see X.LENIENT_REASONS)
+            elif hv and not ok:
+                ctx.violation("%s:%s:accepted_invalid" % (kop, reason), "%s %s returns a value (shape %s) where NumPy raises" % (op, det["case"], o.vshape), det)
             elif not hv and ok:
                 if not (op == "squeeze"):
-                    ctx.violation("%s:%s:rejected_valid" % (op, reason), "%s %s returns Nothing where NumPy returns shape %s" % (op, det["case"], list(exp.shape)), det)
+                    ctx.violation("%s:%s:rejected_valid" % (kop, reason), "%s %s returns Nothing where NumPy returns shape %s" % (op, det["case"], list(exp.shape) if exp is not None else "?"), det)
             # Nothing must stay Nothing through evaluation
             if not hv:
-                for route in ("E", "C", "O"):
-                    if cr.rec.get(route) is not None:
-                        ctx.violation("%s:%s:value_from_nothing" % (op, route), "%s %s: view is Nothing but evaluation route %s produced a value" % (op, det["case"], route), det)
-            acc.add(cr.hooks)
+                for route in o.routes:
+                    ctx.violation("%s:%s:value_from_nothing" % (kop, route), "%s %s: view is Nothing but evaluation route %s produced a value" % (op, det["case"], route), det)
+            acc.add(o.hooks)
             if not ok:
-                ctx.seen((op, reason, cr.m["args"]))
-                reasons_seen.setdefault(op, set()).add(reason)
+                ctx.seen((op, reason, m["args"]))
+                reasons_seen.setdefault(kop, set()).add(reason)
                 if len(ctx.samples) < 4 and ctx.rng.random() < 0.01:
-                    ctx.sample(dict(op=op, args=cr.m["args"], reason=reason, numpy_raises=True, has_value=hv))
+                    ctx.sample(dict(op=op, args=m["args"][:300], reason=reason, numpy_raises=True, has_value=hv))
+        del obs
     # ---- part B
     pc = gen_fail_pipes(ctx.rng, ctx.tier)
     res = V.run_module_cases(HARNESS, pc, "asan", parse=parse_qpipe)
@@ -354,10 +464,12 @@ def run(ctx):
         ctx.seen((op, cr.m["args"]))
         if len(ctx.samples) < 8 and first_fail is not None and ctx.rng.random() < 0.02:
             ctx.sample(dict(pipeline=op, args=cr.m["args"], numpy_first_failing_stage=first_fail + 1, stage_has_value=st, final_has_value=hv))
-    ctx.rule = ("part A: invalid + valid argument space (labelled by reason) of the checked ops; has_value == (NumPy accepts); "
+    ctx.rule = ("part A: invalid + valid argument space (labelled by reason) of the checked ops of C03/C04/C07/C08/C16 (%s cases); has_value == (NumPy accepts); " % sum(ncases.values()) +
                 "part B: %d pipeline cases in which stage 1/2/3 may fail, optional passed on unwrapped. distinct = (op, reason, arguments) of invalid cases + pipeline cases" % len(pc))
     ctx.set("checked_ops", checked)
     ctx.set("unchecked_inventory", unchecked)
+    ctx.set("unchecked_positions", positions)
+    ctx.set("part_a_cases_per_source", ncases)
     ctx.set("invalid_reasons_covered", {k: sorted(v) for k, v in reasons_seen.items()})
     ctx.set("pipeline_failure_positions", fail_at)
     ctx.set("crashes_contained", ncrash)
